@@ -140,6 +140,11 @@ func (ms *Modules) resolveIdentities() []error {
 
 	var errs []error
 
+	// The dictionary is built afresh in every run: what an earlier run
+	// entered may have gone since (e.g., an identity of a submodule revision
+	// that a newer revision has superseded).
+	ms.typeDict.identities.dict = map[string]resolvedIdentity{}
+
 	// Across all modules, read the identity values that have been extracted
 	// from them, and compile them into a "fully resolved" map that means that
 	// we can look them up based on the 'real' prefix of the module and the
@@ -170,6 +175,16 @@ func (ms *Modules) resolveIdentities() []error {
 	// changed that (e.g., a newer revision of an imported module).
 	for _, i := range ms.typeDict.identities.dict {
 		i.Identity.Values = nil
+	}
+	// That goes for the identities that are not in the dictionary as well
+	// (those of a submodule that nothing includes any more, or one that
+	// another identity of the same name shadows).
+	for _, mods := range []map[string]*Module{ms.Modules, ms.SubModules} {
+		for _, m := range mods {
+			for _, i := range m.Identities() {
+				i.Values = nil
+			}
+		}
 	}
 
 	// Now, we want to create for all identities a view of all of their children.
